@@ -128,7 +128,7 @@ func init() {
 	register(&PropDef{
 		ID:    "C10",
 		Level: "exploration",
-		Rule: "histories of envelope operations (insert, calculate, content edits, sign with valid / public-only / empty keys, unsign, stamps, links, tags, meta, notes, identifier change, validate, verify, persist, crash-restart, lost write, re-encode, damaged signature list on disk) checked step by step against an executable reference model; " +
+		Rule: "histories of envelope operations; sign and validate steps also through the command-line, bulk and HTTP paths on the serialised envelope; sign, unsign, validate and verify must leave the header's own entries byte-identical (insert, calculate, content edits, sign with valid / public-only / empty keys, unsign, stamps, links, tags, meta, notes, identifier change, validate, verify, persist, crash-restart, lost write, re-encode, damaged signature list on disk) checked step by step against an executable reference model; " +
 			"check 'enum' enumerates every sequence over a 15-operation alphabet up to length 3 (quick) / 4 (thorough), and in thorough every sequence of length 5 and 6 over an 8-operation core alphabet, on three base documents (two invoices, one order), check 'life' draws longer seeded histories over 12 base documents; a case is one history, distinct by its operation sequence and base document, non-trivial when it contains at least one state-changing operation followed by an observation",
 		Assumptions: []string{
 			"which documents are structurally valid is asked of the implementation on a fresh parse of the same bytes; the model predicts how that fact, the digest fact, the signature list and the header combine over a history",
